@@ -1,14 +1,33 @@
 #!/bin/bash
-# usage: scripts/check.sh <Cxx> [--tier quick|thorough] [...]
+# usage: scripts/check.sh <Cxx> [--tier quick|thorough] [--replay file] [...]
 # Rebuilds the checker against /repo's current working tree (hooks on), then runs it.
 set -u
 cd /verif
 . scripts/env.sh
 mkdir -p bin evidence
 prop=$1; shift
-if ! out=$(go build -tags verif -o bin/vcheck ./cmd/vcheck 2>&1); then
-  echo "BUILD FAILED (the tree under /repo does not compile with -tags verif)"
-  echo "$out" | head -40
-  exit 2
+case "$prop" in
+  C09|C18|C03|C08) mode=ov ;;
+  *) mode=plain ;;
+esac
+if [ "$mode" = ov ]; then
+  ovdir=$(mktemp -d "${TMPDIR:-/tmp}/verif-ov.XXXXXX")
+  trap 'rm -rf "$ovdir"' EXIT
+  if ! out=$(go run ./cmd/instr -repo /repo -out "$ovdir" 2>&1); then
+    echo "INSTRUMENTATION FAILED"; echo "$out" | head -20; exit 2
+  fi
+  if ! out=$(go build -tags verif,verifov -overlay "$ovdir/overlay.json" -o bin/vcheck-ov ./cmd/vcheck 2>&1); then
+    echo "BUILD FAILED (overlay build of /repo's working tree)"; echo "$out" | head -40; exit 2
+  fi
+  rm -rf "$ovdir"; trap - EXIT
+  # auxiliary free-running pass under the race detector (non-deciding)
+  if ! out=$(go build -race -tags verif -o bin/vrace ./cmd/vrace 2>&1); then
+    echo "BUILD FAILED (-race build)"; echo "$out" | head -40; exit 2
+  fi
+  exec bin/vcheck-ov "$prop" "$@"
+else
+  if ! out=$(go build -tags verif -o bin/vcheck ./cmd/vcheck 2>&1); then
+    echo "BUILD FAILED (the tree under /repo does not compile with -tags verif)"; echo "$out" | head -40; exit 2
+  fi
+  exec bin/vcheck "$prop" "$@"
 fi
-exec bin/vcheck "$prop" "$@"
